@@ -5,3 +5,4 @@ import MemcVerif.Model.Wire
 import MemcVerif.Model.Handler
 import MemcVerif.Model.Conn
 import MemcVerif.Model.Ops
+import MemcVerif.Model.Policy
